@@ -31,7 +31,7 @@ func init() {
 	}
 	Registry["C15"] = &Check{
 		Scenarios: c15Scenarios,
-		Rule: "Server.Serve with three connections plus a fourth offered after the fault; accept script: every placement of <=2 temporary accept errors among the offers (temporary errors alternate between temporary-only, like EMFILE, and temporary-and-timeout, like EAGAIN); connection A suffers one fault from {handler panic (raised in the handler itself or, at even positions, 80 calls below it), undecodable header with trailing bytes, disconnect in the middle of a message} at every position 1..3 of its three-message sequence; connections B, C and D exchange two request/answer pairs each with bodies that name their connection (the handler checks that the body belongs to the header); after A's fault the application registers a further handler on the running ServeMux, and the first handler of D also writes to A's (failed) diam.Conn, which must simply return an error; C and D are offered only after that, and C's first message is held inside its body until D has been served completely (so a read buffer shared across connections is overwritten); every ordering of environment steps, timers and blocking hand-overs at preemption bound 0 (quick: each accept placement with three of the nine fault/position pairs; thorough: the full product, and preemption bound 1 for the placement without accept errors); back-off sleeps run on the virtual clock. Four scenarios put 9, 10, 12 and 40 consecutive temporary accept errors between two connections. One scenario accepts a connection as TLS whose peer sends 7 bytes of a handshake record and falls silent (later connections must be accepted and served). One scenario accepts a connection as TLS while its peer sends plain Diameter (the handshake fails: the transport must be closed, the other connection served). Three scenarios (bound 1 / 2) put the fault {panic, undecodable header, cut} on a connection whose peer has stopped reading while the handler of a healthy connection is blocked inside a Write to it: the faulty transport is closed all the same, the blocked handler is released with an error and its connection goes on being served. Two scenarios use an application Handler that implements ErrorReporter itself and panics in Error (undecodable input / cut message on A). Five scenarios (bound 0 / 1) make the faulty connection a multistream (SCTP) association {handler panic, undecodable header, association ending inside a header / inside a body by EOF / by reset}. A runtime fatal error (unlock of an unlocked mutex) is modelled as unrecoverable and reported. Three further scenarios (preemption bound 1, thorough 2) put the fault at the third message of a connection whose first handler has requested CloseNotify, so that the notifier goroutine is running when the connection fails.",
+		Rule: "Server.Serve with three connections plus a fourth offered after the fault; accept script: every placement of <=2 temporary accept errors among the offers (temporary errors alternate between temporary-only, like EMFILE, and temporary-and-timeout, like EAGAIN); connection A suffers one fault from {handler panic (raised in the handler itself or, at even positions, 80 calls below it), undecodable input (by position: a header naming an unknown command with trailing bytes / a complete message whose AVP Length overruns it / stray octets behind the last AVP), disconnect in the middle of a message} at every position 1..3 of its three-message sequence; connections B, C and D exchange two request/answer pairs each with bodies that name their connection (the handler checks that the body belongs to the header); after A's fault the application registers a further handler on the running ServeMux, and the first handler of D also writes to A's (failed) diam.Conn, which must simply return an error; C and D are offered only after that, and C's first message is held inside its body until D has been served completely (so a read buffer shared across connections is overwritten); every ordering of environment steps, timers and blocking hand-overs at preemption bound 0 (quick: each accept placement with three of the nine fault/position pairs; thorough: the full product, and preemption bound 1 for the placement without accept errors); back-off sleeps run on the virtual clock. Four scenarios put 9, 10, 12 and 40 consecutive temporary accept errors between two connections. One scenario accepts a connection as TLS whose peer sends 7 bytes of a handshake record and falls silent (later connections must be accepted and served). One scenario accepts a connection as TLS while its peer sends plain Diameter (the handshake fails: the transport must be closed, the other connection served). Three scenarios (bound 1 / 2) put the fault {panic, undecodable header, cut} on a connection whose peer has stopped reading while the handler of a healthy connection is blocked inside a Write to it: the faulty transport is closed all the same, the blocked handler is released with an error and its connection goes on being served. Two scenarios use an application Handler that implements ErrorReporter itself and panics in Error (undecodable input / cut message on A). Five scenarios (bound 0 / 1) make the faulty connection a multistream (SCTP) association {handler panic, undecodable header, association ending inside a header / inside a body by EOF / by reset}. A runtime fatal error (unlock of an unlocked mutex) is modelled as unrecoverable and reported. Three further scenarios (preemption bound 1, thorough 2) put the fault at the third message of a connection whose first handler has requested CloseNotify, so that the notifier goroutine is running when the connection fails.",
 		Assume: []string{"data-race freedom between visible operations (audited separately with -race)"},
 		QuickBudget: 150, ThoroughBudget: 2400,
 	}
@@ -438,10 +438,7 @@ func c15Scenarios(tier string) []*Scenario {
 						for s := 0; s < pos-1; s++ {
 							c.Deliver(srvReq(ci, s))
 						}
-						bad := make([]byte, 20)
-						bad[0], bad[3] = 1, 60
-						bad[5], bad[6], bad[7] = 0xff, 0xff, 0xfe
-						c.Deliver(append(bad, ghost40(uint32(ci+1))...))
+						c.Deliver(c15Garbage(pos, uint32(ci+1)))
 					case "cut":
 						for s := 0; s < pos-1; s++ {
 							c.Deliver(srvReq(ci, s))
@@ -780,6 +777,28 @@ func c08RelayBlocked(withTimeouts bool, bound int) *Scenario {
 	}
 	return &Scenario{Name: fmt.Sprintf("dispatch/relay-to-a-peer-that-does-not-read/server-timeouts=%v", withTimeouts), Body: body, Check: check, Bound: bound, Horizon: 10 * time.Second,
 		Outcome: func(s *vs.Sched) string { return fmt.Sprint(c08rb.handledB) }}
+}
+
+// c15Garbage: input that cannot be decoded, in three kinds that rotate with the fault position: a
+// header naming a command no dictionary knows (followed by 40 more bytes); a completely received
+// message of a known command whose AVP declares more octets than the message has left; one with
+// five stray octets behind its last AVP.
+func c15Garbage(pos int, hbh uint32) []byte {
+	switch pos % 3 {
+	case 1:
+		bad := make([]byte, 20)
+		bad[0], bad[3] = 1, 60
+		bad[5], bad[6], bad[7] = 0xff, 0xff, 0xfe
+		return append(bad, ghost40(hbh)...)
+	case 2:
+		m := refcodec.EncodeMessage(refcodec.Header{Version: 1, Flags: 0x80, Code: 280, HbH: hbh, E2E: 77}, []refcodec.Node{ident(264, "overrun.example"), ident(296, "r")})
+		m[20+7] = 40 // the first AVP's Length: beyond the end of the message
+		return m
+	}
+	m := refcodec.EncodeMessage(refcodec.Header{Version: 1, Flags: 0x80, Code: 280, HbH: hbh, E2E: 78}, []refcodec.Node{ident(264, "stray.example"), ident(296, "realm")})
+	m = append(m, 1, 2, 3, 4, 5, 0, 0, 0)
+	m[3] = byte(len(m))
+	return m
 }
 
 // panicDeep panics depth calls below its caller.
